@@ -118,9 +118,8 @@ RenameViaVar(k, j, n) ==   \* ds[k].axes[j].name = n
   /\ Bound /\ HasKey(k) /\ j <= Len(VarOf(k).axes) /\ ~HasName(n)
   /\ Rename(VarOf(k).axes[j], n) /\ UNCHANGED <<dsaxes, vars, direct>>
   /\ Record("rename_var", [k |-> k, j |-> j, n |-> n], TRUE)
-SetDims(names) ==          \* ds.dims = names   (new names not in use, pairwise distinct)
+SetDims(names) ==          \* ds.dims = names   (pairwise distinct; they may permute the current names: a swap or a shift)
   /\ Bound /\ Len(dsaxes) > 0 /\ Len(names) = Len(dsaxes) /\ NoDup(names)
-  /\ \A q \in 1..Len(names) : ~HasName(names[q])
   /\ objs' = [i \in 1..MaxId |-> IF \E q \in 1..Len(dsaxes) : dsaxes[q] = i
                                  THEN [objs[i] EXCEPT !.name = names[CHOOSE q \in 1..Len(dsaxes) : dsaxes[q] = i]] ELSE objs[i]]
   /\ UNCHANGED <<dsaxes, vars, direct>>
@@ -160,6 +159,12 @@ AppendAxis(d, labs) ==     \* ds.axes.append(Axis(labs, d)) for a name not in us
      /\ dsaxes' = Append(dsaxes, new) /\ objs' = [objs EXCEPT ![new] = Obj(d, labs)] /\ UNCHANGED vars /\ direct' = direct \cup {new}
   /\ Record("append_axis", [d |-> d, labs |-> labs], TRUE)
 
+\* operations that return a new Dataset (inplace=False, copy(), assigning one of the variables to another Dataset):
+\* this Dataset stays exactly as it was - including the identity of its variables' axes
+Pure(kind, args) ==
+  /\ Bound /\ Len(vars) > 0 /\ direct = {} /\ UNCHANGED state      \* (a copy does not carry axes that no variable uses)
+  /\ Record(kind, args, TRUE)
+
 AllNames == Base \cup {Alt(b) : b \in Base}
 Next ==
   \/ \E k \in Keys : \E c \in Candidates : SetVar(k, c)
@@ -172,6 +177,9 @@ Next ==
   \/ \E d \in AllNames : \E i \in 1..2 : HasName(d) /\ i <= Len(objs[IdOf(d)].labs) /\ objs[IdOf(d)].labs \in LabVariants
                                           /\ RelabelOne(d, i, objs[IdOf(d)].labs[i] + 1)
   \/ SetDims([q \in 1..Len(dsaxes) |-> Alt(NameOf(dsaxes[q]))])
+  \/ Len(dsaxes) >= 2 /\ (SetDims(Rev(DsNames)) \/ SetDims(Tail(DsNames) \o <<Head(DsNames)>>))
+  \/ \E kind \in {"copy", "cross_assign", "rename_axes_copy", "set_axis_copy", "rename_keys_copy"} :
+        Len(dsaxes) > 0 /\ Pure(kind, [d |-> NameOf(dsaxes[1]), n |-> "q", k |-> vars[1].key, labs |-> [j \in 1..Len(objs[dsaxes[1]].labs) |-> 10 + j]])
 
 EmitEdge == Emit => PrintT(ToJson([op |-> "ds_path", path |-> hist']))
 NextEmit == Next /\ EmitEdge
